@@ -336,7 +336,7 @@ pub fn slot_len(arch: Arch, s: &Slot) -> usize {
     if arch.is_x86() {
         match s {
             Slot::Op { form, a, b, c, imm } => x86_op(*form, *a, *b, *c, *imm).len(),
-            Slot::Pad(n) => ((*n as usize).clamp(1, 9)),
+            Slot::Pad(n) => (*n as usize).clamp(1, 9),
             Slot::Cond { cc, short, .. } => {
                 if *cc % 17 == 16 || *short {
                     2
